@@ -558,6 +558,20 @@ def check(ctx):
     ctx.assume('idempotence as a history property follows only together '
                'with C09-C11; it is not decided here')
     check_copy_in(ctx)
+    # the rule store is the enforcer's own object as well: whatever mapping
+    # (or Rules store) the service hands in, self.rules is a store built
+    # here (the clause of C03.DEFAULT-SRC on rebinding self.rules) - a
+    # store taken as it is gets the defaults of every enforcer sharing it
+    # merged into it
+    from . import c03 as _c03
+    nf_, no_ = len(ctx.findings), len(ctx.obligations)
+    ctx.borrow_soft('C12.COPY-IN', _c03.check_default_src,
+                    only=['C03.DEFAULT-SRC'])
+    ctx.findings[nf_:] = [x for x in ctx.findings[nf_:]
+                          if x.construct.startswith('store self.rules')]
+    ctx.obligations[no_:] = [x for x in ctx.obligations[no_:]
+                             if x['construct'].startswith(
+                                 'store self.rules')]
     region = check_no_write(ctx)
     check_mutators(ctx)
     check_fresh_or(ctx)
